@@ -57,7 +57,7 @@ def place(ctx, scns, tag):
 def run_scenarios(ctx, bdir, scns, tag):
     sp, tr = ctx.path(f"scn_{tag}.ndjson"), ctx.path(f"trace_{tag}.ndjson")
     vlib.write_ndjson(sp, scns)
-    rc = vlib.record_trace(ctx, bdir, "invoke", ["run", sp, tr], tr, timeout=1800)
+    rc = vlib.record_trace(ctx, bdir, "invoke", ["run", sp, tr], tr, timeout=600 if ctx.quick else 1800)
     return tr
 
 
@@ -126,6 +126,8 @@ def must_reject(ctx, mod, cfg, recs, tag, env=None):
 def selftest_invoke_trace(ctx, execs, rejected_ids):
     good = [e for e in execs if e[1]["s"]["id"] not in rejected_ids and sum(1 for r in e if r.get("e") == "Call") >= 1 and e[-1].get("e") == "End"]
     if not good:
+        if rejected_ids:
+            return              # nothing was accepted at all: the rejections are reported, there is no accepted execution to corrupt
         raise Broken("no accepted execution with a call to corrupt")
     e = json.loads(json.dumps(min(good, key=len)))
     i = next(k for k, r in enumerate(e) if r.get("e") == "Call")
@@ -167,11 +169,22 @@ def report_rejections(ctx, rej, tag):
             ctx.violation(f"key={k} {what}", rp)
 
 
+def host_vector_level():
+    """2 = AVX-512F, 1 = AVX, 0 = SSE2 only: scenarios never ask for more than the host can execute."""
+    try:
+        flags = next(l for l in open("/proc/cpuinfo") if l.startswith("flags")).split()
+    except Exception:
+        return 0
+    return 2 if "avx512f" in flags else 1 if "avx" in flags else 0
+
+
 def part_a(ctx):
     q = ctx.quick
     bdir = ctx.build("plain", "invoke")
-    n = 280 if q else 4200
-    scns = export_model_scenarios(ctx) + x06gen.gen(ctx.seed, n)
+    n = 280 if q else 3000
+    lvl = host_vector_level()
+    ctx.extra["host_vector_level"] = lvl
+    scns = export_model_scenarios(ctx) + x06gen.gen(ctx.seed, n, max_avx=lvl)
     place(ctx, scns, "rnd")
     tr = run_scenarios(ctx, bdir, scns, "rnd")
     recs, execs, rej = validate_sharded(ctx, tr, "tv", per=35 if q else 70, pool=4 if q else 6)
@@ -364,10 +377,10 @@ def part_b(ctx):
         scripts.append({"arch": ("x64", "x86", "a64")[i % 3], "ops": json.loads(b)})
     sp, tr1 = ctx.path("front_scripts.ndjson"), ctx.path("front_trace_scripts.ndjson")
     vlib.write_ndjson(sp, scripts)
-    vlib.record_trace(ctx, bdir, "compfront", ["script", sp, tr1], tr1, timeout=900)
+    vlib.record_trace(ctx, bdir, "compfront", ["script", sp, tr1], tr1, timeout=240 if q else 900)
     # (2) seeded random call sequences (misuse included) and tidy ones that reach finalize()
     tr2 = ctx.path("front_trace_random.ndjson")
-    vlib.record_trace(ctx, bdir, "compfront", ["random", tr2, 900 if q else 9000, 36], tr2, timeout=1500, env={"VERIF_SEED": ctx.seed})
+    vlib.record_trace(ctx, bdir, "compfront", ["random", tr2, 900 if q else 9000, 36], tr2, timeout=240 if q else 1200, env={"VERIF_SEED": ctx.seed})
     nev = 0
     for tag, path in (("fs", tr1), ("fr", tr2)):
         recs, execs, rej = front_validate(ctx, path, tag, per=150 if q else 500)
@@ -436,7 +449,7 @@ def part_c(ctx):
     cases = x06gen.gen_static(ctx.seed, 700 if q else 9000)
     cp, op = ctx.path("static_cases.ndjson"), ctx.path("static_obs.ndjson")
     vlib.write_ndjson(cp, cases)
-    rc, _, err = vlib.run_harness(ctx, bdir, "compfront", ["static", cp, op], timeout=1500)
+    rc, _, err = vlib.run_harness(ctx, bdir, "compfront", ["static", cp, op], timeout=300 if q else 1500)
     lines = open(op).read().splitlines() if os.path.exists(op) else []
     if rc != 0 or len(lines) != len(cases):
         # a crash / sanitizer abort of the real Compiler on a documented use: the case it stopped at is the finding
